@@ -1427,12 +1427,15 @@ impl RustGenerator {
             Instruction::Delay(max_len, src, time) => {
                 let dest = self.reg_name(dst)?;
                 let src_expr = self.scalar_word_expr(func, src)?;
-                let time_expr = self.word0_expr(time)?;
+                let time_expr = self.scalar_word_expr(func, time)?;
                 writer.line("{")?;
                 writer.indented(1, |writer| {
+                    // operands may read tuple fields through `memory`: evaluate them before borrowing the state storage
+                    writer.line(format!("let delay_input = {src_expr};"))?;
+                    writer.line(format!("let delay_time = {time_expr};"))?;
                     writer.line("let state = self.get_current_statestorage();")?;
                     writer.line(format!(
-                        "{dest}[0] = state.delay({src_expr}, {time_expr}, {}usize);",
+                        "{dest}[0] = state.delay(delay_input, delay_time, {}usize);",
                         max_len
                     ))
                 })?;
@@ -1443,8 +1446,9 @@ impl RustGenerator {
                 let src_expr = self.scalar_word_expr(func, src)?;
                 writer.line("{")?;
                 writer.indented(1, |writer| {
+                    writer.line(format!("let mem_input = {src_expr};"))?;
                     writer.line("let state = self.get_current_statestorage();")?;
-                    writer.line(format!("{dest}[0] = state.mem({src_expr});"))
+                    writer.line(format!("{dest}[0] = state.mem(mem_input);"))
                 })?;
                 writer.line("}")?;
             }
